@@ -1,0 +1,403 @@
+//go:build verif && linux
+// +build verif,linux
+
+package core
+
+// Verification hooks (build tag "verif"). Add-only: nothing here is compiled
+// into a normal build. They let an external harness drive the real event loop,
+// codecs, pools and cluster-refresh goroutine deterministically and in-process:
+// no listener, no polling goroutine, connections on caller-supplied fds.
+
+import (
+	"net"
+	"sync"
+	"time"
+
+	"github.com/petar/GoLLRB/llrb"
+
+	"rcproxy/core/codec"
+	"rcproxy/core/internal/netpoll"
+	"rcproxy/core/pkg/redis"
+)
+
+type VerifOptions struct {
+	MsgMaxLength      int
+	RequestTimeoutMs  int
+	ServerConnections int
+	Passwd            string
+	WriteBufferCap    int
+}
+
+type VerifEnv struct {
+	eng *engine
+	el  *eventloop
+}
+
+// VerifNewEnv builds engine + eventloop + EngineGlobal without listener and
+// without starting any goroutine, and resets the package-level state (message
+// pool, timeout tree, id counters) so that runs are reproducible.
+func VerifNewEnv(o VerifOptions, h EventHandler) (*VerifEnv, error) {
+	opts := &Options{
+		ReadBufferCap:          MaxStreamBufferCap,
+		WriteBufferCap:         MaxStreamBufferCap,
+		RedisMsgMaxLength:      o.MsgMaxLength,
+		RedisRequestTimeout:    o.RequestTimeoutMs,
+		RedisServerConnections: o.ServerConnections,
+		RedisPasswd:            o.Passwd,
+	}
+	if o.WriteBufferCap > 0 {
+		opts.WriteBufferCap = o.WriteBufferCap
+	}
+	if opts.RedisMsgMaxLength < 1 {
+		opts.RedisMsgMaxLength = 6 * 1024 * 1024
+	}
+	if opts.RedisServerConnections < 1 {
+		opts.RedisServerConnections = 1
+	}
+	eng := &engine{opts: opts, eventHandler: h}
+	eng.cond = sync.NewCond(&sync.Mutex{})
+	p, err := netpoll.OpenPoller()
+	if err != nil {
+		return nil, err
+	}
+	el := &eventloop{
+		ln:           &listener{},
+		engine:       eng,
+		poller:       p,
+		buffer:       make([]byte, opts.ReadBufferCap),
+		connections:  make(map[int]*conn),
+		eventHandler: h,
+	}
+	eng.el = el
+	EngineGlobal = &Engine{
+		eng:         eng,
+		ProxyPool:   make(map[string]*Pool),
+		cCodec:      CRespCodec{opts.RedisMsgMaxLength},
+		sCodec:      SRespCodec{opts.RedisMsgMaxLength},
+		clusterChan: make(chan []byte, 3),
+		ClusterNodes: ClusterNodes{
+			passwd:       opts.RedisPasswd,
+			redisWrapper: new(redisWrapper),
+		},
+	}
+	timeoutTree = llrb.New()
+	MsgPool = msgPool{sync.Pool{New: func() interface{} { return new(Msg) }}}
+	msgId, fragId = 0, 0
+	return &VerifEnv{eng: eng, el: el}, nil
+}
+
+func (e *VerifEnv) Shutdown() {
+	for _, c := range e.el.connections {
+		_ = e.el.closeConn(c, nil, ConnEof)
+	}
+	_ = e.el.poller.Close()
+}
+
+// VerifConn is an opaque handle on a real *conn.
+type VerifConn struct{ c *conn }
+
+func (v *VerifConn) SConn() SConn          { return v.c }
+func (v *VerifConn) CConn() CConn          { return v.c }
+func (v *VerifConn) Fd() int               { return v.c.fd }
+func (v *VerifConn) Opened() bool          { return v.c.opened }
+func (v *VerifConn) OutboundBuffered() int { return v.c.outboundBuffer.Buffered() }
+func (v *VerifConn) InboundBuffered() int  { return v.c.inboundBuffer.Buffered() }
+func (v *VerifConn) InitStatus() int       { return int(v.c.initStatus) }
+func (v *VerifConn) InMsgLen() int {
+	if v.c.inMsgQueue == nil {
+		return -1
+	}
+	return v.c.inMsgQueue.count
+}
+func (v *VerifConn) InFragLen() int {
+	if v.c.inFragQueue == nil {
+		return -1
+	}
+	return v.c.inFragQueue.count
+}
+func (v *VerifConn) OutFragLen() int {
+	if v.c.outFragQueue == nil {
+		return -1
+	}
+	return v.c.outFragQueue.count
+}
+
+// AddClient mirrors eventloop.accept after the accept(2) call.
+func (e *VerifEnv) AddClient(fd int, remote net.Addr) (*VerifConn, error) {
+	c := newTCPConn(fd, e.el, e.el.ln.addr, remote, ConnClient, Initialized, false)
+	if err := e.el.poller.AddRead(c.pollAttachment); err != nil {
+		return nil, err
+	}
+	e.el.connections[c.fd] = c
+	return &VerifConn{c}, e.el.open(c)
+}
+
+// AddServer mirrors the tail of engine.Dial once the socket exists.
+func (e *VerifEnv) AddServer(fd int, local, remote net.Addr, isSlave bool) (*VerifConn, error) {
+	var initStatus InitializeStatus
+	if len(e.eng.opts.RedisPasswd) > 0 {
+		initStatus = InitializeNone
+	} else {
+		initStatus = Initialized
+	}
+	c := newTCPConn(fd, e.el, local, remote, ConnServer, initStatus, isSlave)
+	if err := e.el.poller.AddRead(c.pollAttachment); err != nil {
+		return nil, err
+	}
+	e.el.connections[c.fd] = c
+	if err := e.el.open(c); err != nil {
+		return &VerifConn{c}, err
+	}
+	return &VerifConn{c}, nil
+}
+
+// Readable delivers a "readable" event (one read(2) of at most ReadBufferCap bytes).
+func (e *VerifEnv) Readable(v *VerifConn) error {
+	if !v.c.opened {
+		return nil
+	}
+	return e.el.read(v.c)
+}
+
+// Writable delivers a "writable" event.
+func (e *VerifEnv) Writable(v *VerifConn) error {
+	if !v.c.opened || v.c.outboundBuffer.IsEmpty() {
+		return nil
+	}
+	return e.el.write(v.c)
+}
+
+func (e *VerifEnv) CloseConn(v *VerifConn) error {
+	return e.el.closeConn(v.c, nil, ConnEof)
+}
+
+func (e *VerifEnv) RunTasks() (int, error) { return e.el.poller.VerifRunTasks() }
+func (e *VerifEnv) PendingTasks() bool     { return e.el.poller.VerifPendingTasks() }
+func (e *VerifEnv) MsgTimeout()            { e.el.msgTimeout() }
+func (e *VerifEnv) TimeoutQueueLen() int   { return timeoutTree.Len() }
+
+// ShiftDeadlines moves every pending deadline by d (order is preserved).
+func (e *VerifEnv) ShiftDeadlines(d time.Duration) {
+	var items []*Frag
+	if timeoutTree.Len() == 0 {
+		return
+	}
+	timeoutTree.AscendGreaterOrEqual(timeoutTree.Min(), func(i llrb.Item) bool {
+		items = append(items, i.(*Frag))
+		return true
+	})
+	for _, f := range items {
+		timeoutTree.Delete(f)
+	}
+	for _, f := range items {
+		f.Timeout = f.Timeout.Add(d)
+		timeoutTree.ReplaceOrInsert(f)
+	}
+}
+
+// Ticker runs eventloop.ticker with the one-second gate opened.
+func (e *VerifEnv) Ticker() {
+	e.el.nextTicker = time.Time{}
+	e.el.ticker()
+}
+
+// NewPool registers a pool for addr without the monitor goroutine and with an
+// injectable dial function.
+func (e *VerifEnv) NewPool(addr string, isSlave bool, dial func(addr string, isSlave bool) (SConn, error)) *Pool {
+	p := &Pool{
+		Addr:      addr,
+		Passwd:    e.eng.opts.RedisPasswd,
+		Dial:      dial,
+		isSlave:   isSlave,
+		maxActive: e.eng.opts.RedisServerConnections,
+		cancel:    func() {},
+	}
+	EngineGlobal.ProxyPool[addr] = p
+	EngineGlobal.ProxyAddrs = append(EngineGlobal.ProxyAddrs, addr)
+	return p
+}
+
+// SetPoolFactory makes pools created by eventloop.ticker (engine.newPool) use
+// the same injectable dial; it returns a function that patches a pool after
+// the ticker created it.
+func (e *VerifEnv) PatchPools(dial func(addr string, isSlave bool) (SConn, error)) {
+	for _, p := range EngineGlobal.ProxyPool {
+		p.Dial = dial
+	}
+}
+
+func (p *Pool) VerifIsSlave() bool { return p.isSlave }
+func (p *Pool) VerifClosed() bool  { return p.closed }
+
+// SetReplicaset installs a replica set for the given inclusive slot ranges.
+func (e *VerifEnv) SetReplicaset(master string, slaves []string, ranges [][2]int32) {
+	rs := &replicaset{Master: &ClusterNode{Addr: master, Role: Master}}
+	for _, s := range slaves {
+		rs.Slaves = append(rs.Slaves, &ClusterNode{Addr: s, Role: Slave})
+	}
+	for _, r := range ranges {
+		for i := r[0]; i <= r[1]; i++ {
+			EngineGlobal.Slots2Node.Set(i, rs)
+		}
+	}
+}
+
+// SlotOwner reports the routing table entry of a slot.
+func (e *VerifEnv) SlotOwner(slot int32) (master string, slaves []string, ok bool) {
+	rs := EngineGlobal.Slots2Node.Get(slot)
+	if rs == nil {
+		return "", nil, false
+	}
+	for _, s := range rs.Slaves {
+		slaves = append(slaves, s.Addr)
+	}
+	return rs.Master.Addr, slaves, true
+}
+
+// ---- client decoder on raw bytes ----
+
+type verifFakeCConn struct {
+	CConn
+	buf       []byte
+	discarded int
+}
+
+func (f *verifFakeCConn) Peek(n int) ([]byte, error)    { return f.buf, nil }
+func (f *verifFakeCConn) Discard(n int) (int, error)    { f.discarded += n; return n, nil }
+func (f *verifFakeCConn) Fd() int                       { return 0 }
+func (f *verifFakeCConn) EnqueueInMsg(_ *Msg)           {}
+func (f *verifFakeCConn) RemoteAddr() string            { return "" }
+func (f *verifFakeCConn) LocalAddr() string             { return "" }
+func (f *verifFakeCConn) IsOpened() bool                { return true }
+func (f *verifFakeCConn) Write(p []byte) (int, error)   { return len(p), nil }
+func (f *verifFakeCConn) Writev(b [][]byte) (int, error) { return 0, nil }
+
+type VerifDecodeResult struct {
+	Err      error
+	NilMsg   bool
+	Type     codec.Command
+	Consumed int
+	Keys     []string
+	Frags    map[int32][]byte
+}
+
+// VerifDecode runs the real client decoder on data with the given size limit.
+func VerifDecode(limit int, data []byte) (res VerifDecodeResult) {
+	if EngineGlobal == nil {
+		EngineGlobal = &Engine{}
+	}
+	EngineGlobal.cCodec = CRespCodec{limit}
+	fc := &verifFakeCConn{buf: data}
+	m, err := EngineGlobal.cCodec.Decode(fc)
+	res.Err = err
+	res.Consumed = fc.discarded
+	if m == nil {
+		res.NilMsg = err == nil
+		return
+	}
+	res.Type = m.Type
+	res.Keys = append(res.Keys, m.Keys...)
+	res.Frags = make(map[int32][]byte, len(m.Body))
+	for s, f := range m.Body {
+		res.Frags[s] = append([]byte(nil), f.Req...)
+	}
+	return
+}
+
+func VerifParseLen(p []byte) (int, error) { return parseLen(p) }
+
+func VerifParseMovedOrAsk(typ codec.Command, body []byte) (string, int32) {
+	f := &Frag{Type: typ, RspBody: body}
+	return f.parseMovedOrAsk()
+}
+
+// ---- cluster refresh goroutine ----
+
+type verifRedisWrapper struct {
+	info func(addr string) (*redis.Info, error)
+}
+
+type verifRedisConn struct {
+	redis.Conn
+	info *redis.Info
+}
+
+func (c *verifRedisConn) Info() (*redis.Info, error) { return c.info, nil }
+func (c *verifRedisConn) Close() error               { return nil }
+
+func (w *verifRedisWrapper) Dial(address, passwd string, options ...redis.DialOption) (redis.Conn, error) {
+	i, err := w.info(address)
+	if err != nil {
+		return nil, err
+	}
+	return &verifRedisConn{info: i}, nil
+}
+
+// StartClusterLoop runs the real loopClusterNodes goroutine with INFO answered
+// by info; the returned channel is closed if the goroutine ever returns.
+func (e *VerifEnv) StartClusterLoop(info func(addr string) (*redis.Info, error)) <-chan struct{} {
+	EngineGlobal.ClusterNodes.redisWrapper = &verifRedisWrapper{info: info}
+	done := make(chan struct{})
+	go func() {
+		defer close(done)
+		defer func() {
+			if r := recover(); r != nil {
+				verifClusterPanic = r
+			}
+		}()
+		EngineGlobal.ClusterNodes.loopClusterNodes()
+	}()
+	return done
+}
+
+var verifClusterPanic interface{}
+
+func VerifClusterPanic() interface{} { return verifClusterPanic }
+func VerifResetClusterPanic()        { verifClusterPanic = nil }
+
+// ClusterFeed hands a probe reply to the refresh goroutine exactly like
+// eventloop.sread does (non-blocking send); it reports whether it was accepted.
+func (e *VerifEnv) ClusterFeed(msg []byte) bool {
+	select {
+	case EngineGlobal.clusterChan <- msg:
+		return true
+	default:
+		return false
+	}
+}
+
+type VerifNode struct {
+	Name, Addr, MasterId string
+	Role                 int
+	Slots                [][2]int32
+}
+
+type VerifClusterState struct {
+	Changed     bool
+	Servers     []VerifNode   // ServerMap values (unordered)
+	Replicasets [][]VerifNode // master first
+}
+
+func verifNode(n *ClusterNode) VerifNode {
+	v := VerifNode{Name: n.Name, Addr: n.Addr, MasterId: n.MasterId, Role: int(n.Role)}
+	for _, s := range n.Slots {
+		v.Slots = append(v.Slots, [2]int32{s.Start, s.End})
+	}
+	return v
+}
+
+func (e *VerifEnv) ClusterState() (st VerifClusterState) {
+	cn := &EngineGlobal.ClusterNodes
+	st.Changed = cn.serverChanged
+	for kv := range cn.ServerMap.Iter() {
+		st.Servers = append(st.Servers, verifNode(kv.Value.(*ClusterNode)))
+	}
+	for _, rs := range cn.Replicasets {
+		row := []VerifNode{verifNode(rs.Master)}
+		for _, s := range rs.Slaves {
+			row = append(row, verifNode(s))
+		}
+		st.Replicasets = append(st.Replicasets, row)
+	}
+	return
+}
